@@ -183,19 +183,23 @@ def make_data(c):
 
 
 def build_model(x, y):
+    """y ~ N(coef[0] + coef[1] x + bias, 1): two parameter blocks (`coef` vector, `bias` scalar) so that the order in which the user lists
+    them in `params` matters"""
     coef = lsl.param(np.zeros(2, dtype=F32), lsl.Dist(tfd.Normal, loc=0.0, scale=10.0), name="coef")
+    bias = lsl.param(F32(0.5), lsl.Dist(tfd.Normal, loc=0.0, scale=1.0), name="bias")
     X = lsl.obs(np.c_[np.ones_like(x), x].astype(F32), name="X")
-    mu = lsl.Var(lsl.Calc(jnp.dot, X, coef), name="mu")
+    mu = lsl.Var(lsl.Calc(lambda X, c, b: jnp.dot(X, c) + b, X, coef, bias), name="mu")
     yv = lsl.obs(y, lsl.Dist(tfd.Normal, loc=mu, scale=1.0), name="y")
     return lsl.GraphBuilder().add(yv).build_model()
 
 
-def neg_log_post(coef, x, y, lik_scale=1.0):
+def neg_log_post(coef, x, y, lik_scale=1.0, bias=0.5):
     """independent float64 evaluation of the loss"""
     coef = np.asarray(coef, dtype=np.float64)
-    mu = coef[0] + coef[1] * x.astype(np.float64)
+    bias = float(bias)
+    mu = coef[0] + coef[1] * x.astype(np.float64) + bias
     ll = np.sum(-0.5 * (y.astype(np.float64) - mu) ** 2 - 0.5 * np.log(2 * np.pi))
-    lp = np.sum(-0.5 * (coef / 10.0) ** 2 - np.log(10.0) - 0.5 * np.log(2 * np.pi))
+    lp = np.sum(-0.5 * (coef / 10.0) ** 2 - np.log(10.0) - 0.5 * np.log(2 * np.pi)) - 0.5 * bias ** 2 - 0.5 * np.log(2 * np.pi)
     return -(lik_scale * ll + lp)
 
 
@@ -207,7 +211,7 @@ def run_optim(c, x, y, xv=None, yv=None):
     opt = optax.sgd(c["lr"]) if c["opt"] == "sgd" else optax.adam(c["lr"] * 10)
     stopper = Stopper(max_iter=c["max_iter"], patience=c["patience"], atol=c["atol"], rtol=c["rtol"])
     with silence():
-        res = optim_flat(model, ["coef"], optimizer=opt, stopper=stopper, batch_size=c["batch"], batch_seed=c["batch_seed"],
+        res = optim_flat(model, list(c.get("params", ["coef"])), optimizer=opt, stopper=stopper, batch_size=c["batch"], batch_seed=c["batch_seed"],
                          model_validation=mval, restore_best_position=c["restore"], prune_history=c["prune"], progress_bar=False)
     return res, model
 
@@ -223,7 +227,8 @@ def gen_e2e():
                 "lr": draw(st.sampled_from([0.002, 0.01, 0.03, 0.08, 0.15])), "max_iter": mi, "patience": draw(st.integers(1, mi)),
                 "atol": draw(st.sampled_from([0.0, 1e-3, 0.05, 1.0])), "rtol": draw(st.sampled_from([0.0, 1e-3, 0.05])),
                 "batch": draw(st.one_of(st.none(), st.integers(2, n))), "batch_seed": draw(st.integers(1, 1000)),
-                "validation": draw(st.booleans()), "restore": draw(st.booleans()), "prune": draw(st.booleans())}
+                "validation": draw(st.booleans()), "restore": draw(st.booleans()), "prune": draw(st.booleans()),
+                "params": draw(st.sampled_from([["coef"], ["coef", "bias"], ["coef", "bias"], ["bias", "coef"]]))}
 
     return g()
 
@@ -238,6 +243,9 @@ def oracle_e2e(c):
     det = f"case={c} iteration={it} best={ib}"
     h = res.history
     lv, lt, hp = np.asarray(h["loss_validation"]), np.asarray(h["loss_train"]), np.asarray(h["position"]["coef"])
+    has_bias = "bias" in c.get("params", ["coef"])
+    require(sorted(h["position"].keys()) == sorted(c.get("params", ["coef"])) and sorted(res.position.keys()) == sorted(c.get("params", ["coef"])), "position-keys", det)
+    hb = np.asarray(h["position"]["bias"]) if has_bias else np.full(hp.shape[0], 0.5)
     require(0 <= it <= mi - 1 and res.max_iter == mi, "iteration-out-of-range", det)
     # lengths / padding
     if c["prune"]:
@@ -252,8 +260,8 @@ def oracle_e2e(c):
     # recorded losses are the losses of the recorded positions (independent evaluation)
     nval = len(yv) if c["validation"] else c["n"]
     for k in sorted({0, it, ib, it // 2}):
-        e_tr = neg_log_post(hpp[k], x, y)
-        e_va = neg_log_post(hpp[k], xv, yv, c["n"] / nval) if c["validation"] else e_tr
+        e_tr = neg_log_post(hpp[k], x, y, bias=hb[k])
+        e_va = neg_log_post(hpp[k], xv, yv, c["n"] / nval, bias=hb[k]) if c["validation"] else e_tr
         tol = 2e-4 * (abs(e_tr) + 10)
         require(abs(ltt[k] - e_tr) <= tol, "history:loss_train-not-loss-of-recorded-position", f"k={k} recorded {ltt[k]} independent {e_tr}; {det}")
         require(abs(lvv[k] - e_va) <= 2e-4 * (abs(e_va) + 10), "history:loss_validation-not-loss-of-recorded-position", f"k={k} recorded {lvv[k]} independent {e_va}; {det}")
@@ -265,7 +273,10 @@ def oracle_e2e(c):
     # returned position
     pos = np.asarray(res.position["coef"])
     want = hpp[ib] if c["restore"] else hpp[it]
-    require(np.array_equal(pos, want), "position:not-recorded-position-at-" + ("best" if c["restore"] else "last"), f"{pos} vs {want}; {det}")
+    require(pos.shape == want.shape and np.array_equal(pos, want), "position:not-recorded-position-at-" + ("best" if c["restore"] else "last"), f"coef {pos} vs {want}; {det}")
+    if has_bias:
+        pb, wb = np.asarray(res.position["bias"]), (hb[ib] if c["restore"] else hb[it])
+        require(pb.shape == np.shape(wb) and np.array_equal(pb, wb), "position:not-recorded-position-at-" + ("best" if c["restore"] else "last"), f"bias {pb} vs {wb}; {det}")
     # stopping iteration consistent with the documented rule applied to the recorded validation history
     p_eff = p if c["validation"] else mi
     stopped_early = it < mi - 1
@@ -278,6 +289,8 @@ def oracle_e2e(c):
     # model_state consistent with the returned position (direct assignment on a fresh model)
     ref = build_model(x, y)
     ref.vars["coef"].value = jnp.asarray(pos)
+    if has_bias:
+        ref.vars["bias"].value = jnp.asarray(res.position["bias"])
     ref.update()
     for name, ns in res.model_state.items():
         a, b = ns.value, ref.state[name].value
